@@ -2,7 +2,7 @@
    check_corr compares them with the model, check_spec evaluates the property itself on the observations only
    (it never looks at the model's compile): the run with options must equal T applied pointwise to the plain run. *)
 From Coq Require Import List ZArith QArith Bool.
-Require Import QV.common.Util QV.C05.Model.
+Require Import QV.common.Util QV.C05.Model QV.C05.Spec.
 Import ListNotations.
 Open Scope Z_scope.
 
@@ -62,9 +62,22 @@ Definition obs_eqb (a b : obs) : bool :=
   | _, _ => false
   end.
 
-Definition check_corr (c : case) : bool :=
+(* model = implementation.  The plain run is always compared.  The option run is compared on the inputs that satisfy
+   the guards of the theorems; outside them the model encodes a known defect of the code, the property itself is
+   judged by check_spec there, and an implementation that differs from the model by being right must not alarm
+   (check_corr_strict compares everywhere and is used for statistics only). *)
+Definition in_guards (p : pt) (cs : list N) (G : list trafo) : bool :=
+  guard_C05_single_waveform cs p && guard_C05_parallel_order G p.
+Definition check_corr_strict (c : case) : bool :=
   match c with
   | COpt p cs G plain opt => obs_eqb (model_obs p [] []) plain && obs_eqb (model_obs p cs G) opt
+  | CSame p1 p2 o1 o2 => obs_eqb (model_obs p1 [] []) o1 && obs_eqb (model_obs p2 [] []) o2
+  | CCrash => false
+  end.
+Definition check_corr (c : case) : bool :=
+  match c with
+  | COpt p cs G plain opt =>
+      obs_eqb (model_obs p [] []) plain && (negb (in_guards p cs G) || obs_eqb (model_obs p cs G) opt)
   | CSame p1 p2 o1 o2 => obs_eqb (model_obs p1 [] []) o1 && obs_eqb (model_obs p2 [] []) o2
   | CCrash => false
   end.
